@@ -22,6 +22,7 @@ META = {
 }
 
 BITS = [1024, 1024, 1025, 1031, 1032, 1536, 2048]
+BIG_BITS = [3072, 3073]      # k > 256+11: index arithmetic of the constant-time decoders crosses a byte boundary
 OAEP_HASHES = ["SHA1", "SHA224", "SHA256", "SHA384", "SHA512", "SHA3_256"]
 
 _KEYS = {}
@@ -68,7 +69,7 @@ OAEP_FAULTS = ["valid", "valid", "genuine", "y-nonzero", "lhash-first", "lhash-l
 
 @st.composite
 def strat_oaep(draw, tier):
-    bits = draw(st.sampled_from(BITS if tier == "thorough" else BITS[:5] + [1536]))
+    bits = draw(st.sampled_from((BITS if tier == "thorough" else BITS[:5] + [1536]) + BIG_BITS[:1]))
     h = draw(st.sampled_from(OAEP_HASHES))
     return {"bits": bits, "e": draw(st.sampled_from([0, 0, 1, 2])), "hash": h, "mgf_hash": draw(st.sampled_from([None, None, "SHA1", "SHA256", "SHA512"])),
             "label": draw(st.one_of(st.just(b""), st.binary(max_size=20), gen.data_of(st.sampled_from([64, 100])))),
@@ -97,6 +98,8 @@ def run_oaep(case, rec):
     fault = case["fault"]
     cipher = PKCS1_OAEP.new(kobj, hashAlgo=oracles.lib_hash_module(hname), mgfunc=lib_mgf, label=label, randfunc=Tape(case["seed"]))
     mlen = case["msg_frac"] * maxlen // 1000
+    if maxlen > 300 and case["msg_frac"] % 3 == 0:
+        mlen = min(maxlen, [255, 256, 257, 254, 300, 44][case["msg_frac"] // 3 % 6])
     if fault == "max-message":
         mlen = maxlen
     if fault == "empty-message":
@@ -175,10 +178,10 @@ SENTINELS = ["bytes-rand", "bytes-rand", "bytes-empty", "bytes-k", "bytes-k+1", 
 
 @st.composite
 def strat_v15(draw, tier):
-    bits = draw(st.sampled_from(BITS if tier == "thorough" else BITS[:5] + [1536]))
+    bits = draw(st.sampled_from((BITS if tier == "thorough" else BITS[:5] + [1536]) + BIG_BITS))
     return {"bits": bits, "e": draw(st.sampled_from([0, 0, 1, 2])), "fault": draw(st.sampled_from(V15_FAULTS)), "msg_frac": draw(st.integers(0, 1000)),
             "seed": draw(st.binary(min_size=8, max_size=8)), "sentinel": draw(st.sampled_from(SENTINELS)),
-            "expected": draw(st.sampled_from(["zero", "zero", "true", "other", "other+", "too-big"])), "pos": draw(st.integers(0, 10 ** 6)),
+            "expected": draw(st.sampled_from(["zero", "zero", "true", "other", "other+", "too-big", "+-256", "+-256"])), "pos": draw(st.integers(0, 10 ** 6)),
             "val": draw(st.integers(1, 255))}
 
 
@@ -195,6 +198,8 @@ def run_v15(case, rec):
     fault = case["fault"]
     maxlen = k - 11
     mlen = case["msg_frac"] * maxlen // 1000
+    if maxlen > 300 and case["msg_frac"] % 3 == 0:
+        mlen = [255, 256, 257, 254, 300, 44][case["msg_frac"] // 3 % 6]
     if fault == "zero-last":
         mlen = 0
     if fault in ("ps7", "ps8", "ps9"):
@@ -254,7 +259,13 @@ def run_v15(case, rec):
         sentinel = "sentinel-string"
     ek = case["expected"]
     tl = len(dec) if dec is not None else mlen
-    epl = {"zero": 0, "true": tl, "other": tl + 1 if tl + 1 <= maxlen else max(1, tl - 1), "other+": max(1, (tl * 7 + 3) % (maxlen + 1)), "too-big": maxlen + 1 + case["pos"] % 5}[ek]
+    if ek == "+-256":
+        # lengths differing by a multiple of 256 (byte-folding bugs in constant-time comparisons)
+        cands = [v for v in (tl + 256, tl - 256, tl + 512) if 1 <= v <= maxlen]
+        if not cands:
+            ek = "other"
+    epl = {"zero": 0, "true": tl, "other": tl + 1 if tl + 1 <= maxlen else max(1, tl - 1), "other+": max(1, (tl * 7 + 3) % (maxlen + 1)), "too-big": maxlen + 1 + case["pos"] % 5,
+           "+-256": cands[case["pos"] % len(cands)] if ek == "+-256" else 0}[ek]
     if epl == tl and ek in ("other", "other+"):
         epl = tl + 1 if tl + 1 <= maxlen else tl - 1
         if epl < 1:
@@ -295,14 +306,14 @@ def run_v15(case, rec):
 # ------------------------------------------------------------------ every message length round-trips
 def cases_lengths(tier, shard, nshards):
     out = []
-    for bits in ([1024, 1025] if tier == "quick" else [1024, 1025, 1031, 1536, 2048]):
+    for bits in ([1024, 1025, 3072] if tier == "quick" else [1024, 1025, 1031, 1536, 2048, 3072, 4096]):
         k = (bits + 7) // 8
         for scheme, h in (("v15", None), ("oaep", "SHA1"), ("oaep", "SHA256"), ("oaep", "SHA512")):
             mx = k - 11 if scheme == "v15" else k - 2 * oracles.HASHES[h][1] - 2
             if mx < 0:
                 continue
-            step = 1 if tier == "thorough" else 3
-            for n in sorted(set(list(range(0, mx + 1, step)) + [0, 1, mx - 1, mx])):
+            step = 1 if tier == "thorough" else (3 if bits < 3000 else 11)
+            for n in sorted(set(list(range(0, mx + 1, step)) + [0, 1, mx - 1, mx] + [v for v in range(250, 262) if v <= mx])):
                 if n >= 0:
                     out.append({"bits": bits, "scheme": scheme, "hash": h, "n": n})
     return [c for i, c in enumerate(out) if i % nshards == shard]
